@@ -506,8 +506,7 @@ pub fn miri_box() -> Acc {
         if !s.buildable() {
             return false;
         }
-        let ok = if s.wide { expect(s, &build::<u16>(s)).accept } else { expect(s, &build::<u8>(s)).accept };
-        ok || k % 97 == 0
+        geometry_ok(s) || k % 97 == 0
     };
     for (k, s) in small_box(3).into_iter().enumerate() {
         if s.p[0].xpad == 17 || !wanted(&s, k) {
